@@ -50,6 +50,9 @@ type knownFinding struct {
 	What     string   `json:"what"`
 	Commit   string   `json:"commit,omitempty"`
 	Witness  []string `json:"witness"`
+	// ReplayKeep: known-finding keys that stay excused while this (fixed) finding's
+	// witnesses are replayed; everything else is judged without excuses.
+	ReplayKeep []string `json:"replay_keep,omitempty"`
 }
 
 func fatal2(format string, a ...any) {
@@ -143,7 +146,7 @@ func main() {
 		stillFails := false
 		for _, w := range f.Witness {
 			wp := filepath.Join(verifRoot, w)
-			viol, msg := runReplay(bin, wp, true)
+			viol, msg := runReplay(bin, wp, true, f.ReplayKeep...)
 			witnessesRun++
 			if viol {
 				stillFails = true
@@ -317,7 +320,7 @@ func build(race bool) string {
 	return bin
 }
 
-func runReplay(bin, file string, noKF bool) (violation bool, msg string) {
+func runReplay(bin, file string, noKF bool, keep ...string) (violation bool, msg string) {
 	dir, err := os.MkdirTemp("", "vreplay-")
 	if err != nil {
 		fatal2("%v", err)
@@ -334,6 +337,9 @@ func runReplay(bin, file string, noKF bool) (violation bool, msg string) {
 		kf = "/dev/null"
 	}
 	cmd.Env = append(os.Environ(), "VERIF_OUT="+dir, "VERIF_REPLAY="+file, "VERIF_KF="+kf)
+	if noKF && len(keep) > 0 {
+		cmd.Env = append(cmd.Env, "VERIF_KF="+filepath.Join(verifRoot, "known_findings.json"), "VERIF_KF_KEEP="+strings.Join(keep, ","))
+	}
 	out, err := cmd.CombinedOutput()
 	rb, rerr := os.ReadFile(filepath.Join(dir, "replay-result.json"))
 	if rerr != nil {
